@@ -2799,6 +2799,26 @@ Proof.
   - unfold chained_guard. rewrite Hpure. destruct k; try discriminate; reflexivity.
 Qed.
 
+(* f6bcd55: an eager (list / set / dict) comprehension is never merged into a generator expression: merged, its
+   iterable and conditions would be evaluated while the generator is consumed.  (The semantics of this file
+   evaluates generators eagerly, so the laziness itself is outside the model; what is pinned is the refusal.) *)
+Lemma nested_gen_eager_clause : forall elt others x ik y idval igens,
+  ik <> CGen -> merge_clause CGen elt others (XGen (TName x) (XComp ik (XName y) idval igens) []) = None.
+Proof.
+  intros elt others x ik y idval igens Hk. cbn [merge_clause].
+  destruct (negb (last_target_is igens y)); [reflexivity|]. destruct ik; try reflexivity. congruence.
+Qed.
+Theorem nested_gen_eager_kept : forall elt dval x ik y idval igens,
+  ik <> CGen -> rw_nested (XComp CGen elt dval [XGen (TName x) (XComp ik (XName y) idval igens) []]) = None.
+Proof.
+  intros elt dval x ik y idval igens Hk. unfold rw_nested. cbn [merge_gens app].
+  rewrite nested_gen_eager_clause by exact Hk. reflexivity.
+Qed.
+Example nested_gen_gen_merged :
+  rw_nested (XComp CGen (XName 2) dummy [XGen (TName 2) (XComp CGen (XName 4) dummy [XGen (TName 4) (XName 3) []]) []])
+  = Some (XComp CGen (XName 2) dummy [XGen (TName 2) (XName 3) []]).
+Proof. reflexivity. Qed.
+
 Example nested_guard_same_example :
   let e := XComp CList (XCall 0 [XName 2]) dummy
              [XGen (TName 2) (XComp CList (XName 2) dummy [XGen (TName 2) (XName 8) [XNot (XName 2)]]) []] in
